@@ -1813,8 +1813,9 @@ func (trd *tarReadData) linkAdd(src, tgt string) bool {
 }
 
 func (trd *tarReadData) linkList(tgt string) ([]string, error) {
-	list := trd.links[tgt]
-	for _, entry := range list {
+	list := slices.Clone(trd.links[tgt])
+	for i := 0; i < len(list); i++ {
+		entry := list[i]
 		if entry == tgt {
 			return nil, fmt.Errorf("symlink loop encountered for %s", tgt)
 		}
